@@ -364,15 +364,24 @@ def run_impl(steps: list[dict], injected: dict | None = None, observer=None) -> 
             out.append({"bad": "no such slot"})   # its construction raised; the model says the same
             continue
         try:
-            if op == "init" and st.get("via") in ("epm_dicts", "epm_records", "load_epm"):
+            if op == "init" and st.get("via") in ("epm_dicts", "epm_dicts2", "epm_records", "load_epm"):
                 # the same collection through the extended-prefix-map loader (dicts, Record objects, module function)
-                if st["via"] == "epm_dicts":
+                if st["via"] in ("epm_dicts", "epm_dicts2"):
                     data = [{"prefix": uncps(r["p"]), "uri_prefix": uncps(r["u"]),
                              "prefix_synonyms": [uncps(x) for x in r["ps"]],
                              "uri_prefix_synonyms": [uncps(x) for x in r["us"]],
                              **({"pattern": uncps(r["pat"])} if r.get("pat") is not None else {})} for r in st["records"]]
                 else:
                     data = [dec_record(r) for r in st["records"]]
+                how = st.get("container", "list")
+                if how == "tuple":
+                    data = tuple(data)
+                elif how == "iter":
+                    data = iter(data)
+                elif how == "generator":
+                    data = (x for x in data)
+                elif how == "dict_values":
+                    data = {i: x for i, x in enumerate(data)}.values()
                 if st["via"] == "load_epm":
                     slots[st["dst"]] = curies.load_extended_prefix_map(data)
                 else:
